@@ -130,4 +130,20 @@ def Stuck (c : Cfg) (s : St) : Prop := ∀ e : Ev, e.progress = true → step c 
 /-- observation of one task, for the driver and the witnesses -/
 def obs (s : St) (i : Nat) : Phase × Nat := (s.ph i, s.done i)
 
+/-! ### the literal source steps the events stand for (compared with the regenerated facts) -/
+
+/-- `take`: the only receivers of `p.tasks` and what they do with the task -/
+def receiversOrder : List String :=
+  ["dispatch: p.mustGetWorker(); worker.execute(task)", "consumedRemainingTasks: p.execTask(task)"]
+/-- `worker.execute`: hands the task to the worker's own (unbuffered) channel -/
+def workerExecuteOrder : List String := ["w.tasks <- task"]
+/-- `worker.process`: executes the task, then registers itself as ready again -/
+def workerProcessOrder : List String := ["w.pool.execTask(task)", "w.pool.readyWorkers <- w"]
+/-- `Task.Exec` (called by `execTask`, see `execTaskSteps`) -/
+def taskExecOrder : List String := ["t.handle()"]
+
+/-- the configuration of the source as it is: `cap` regenerated, `skip` = the closure is not just
+`execFn()`; `slots` is a parameter (maxWorkers of the pool + dispatcher + drain) -/
+def cfgOf (cap slots : Nat) (closureIsExecFnOnly : Bool) : Cfg := ⟨cap, slots, !closureIsExecFnOnly⟩
+
 end LinVerif.PoolQueue
